@@ -266,7 +266,15 @@ func parseCase(id int, text string) map[string]any {
 			e["s"], e["e"] = de.Start, de.End
 		}()
 		cs["err"] = e
-		cs["errtext"] = res.err.Error()
+		cs["errtext"] = func() (t string) {
+			defer func() {
+				if rec := recover(); rec != nil {
+					e["rendered"] = false
+					t = fmt.Sprintf("<rendering the error panicked: %v>", rec)
+				}
+			}()
+			return res.err.Error()
+		}()
 		return cs
 	}
 	cs["ok"] = true
